@@ -1,10 +1,11 @@
 #!/bin/bash
 # runs tools/seedtest.sh over every directory in /verif/seeded (optionally: only those matching $1) and
-# writes the catch matrix to seeded/RESULTS.txt
+# writes the catch matrix to seeded/RESULTS.txt.  PAR=<n> runs n seeded changes at a time (default 1).
 cd "$(dirname "$0")/.."
 out=seeded/RESULTS.txt
 [ -n "${1:-}" ] || : > $out
-for d in seeded/C*/; do
-  case "$d" in *"${1:-}"*) ;; *) continue;; esac
-  tools/seedtest.sh "$d" 2>&1 | grep -v "^    demo" | tee -a $out
-done
+tmp=$(mktemp -d /tmp/seedall-XXXXXX)
+ls -d seeded/C*/ | { [ -n "${1:-}" ] && grep -- "$1" || cat; } > $tmp/list
+cat $tmp/list | xargs -P "${PAR:-1}" -I{} sh -c 'tools/seedtest.sh "$1" 2>&1 | grep -v "^    demo" > "$2/$(basename "$1").out"' _ {} $tmp
+for d in $(cat $tmp/list); do cat "$tmp/$(basename $d).out"; done | tee -a $out
+rm -rf $tmp
